@@ -542,6 +542,64 @@ def smallest(exprs):
     return min(exprs, key=lambda e: (G.size_of(e), repr(e)))
 
 
+# ----------------------------------------------------------------------------- the wording of the dict operations' checks
+IN_DESC_HEADER = """From Coq Require Import List Bool NArith ZArith.
+Import ListNotations.
+From LCC Require Import Base.Util Model.PyVal Model.Matcher gen.TablesMatchers Model.Describe Model.OpsIn Model.OpsInDescribe.
+Definition agrees (c : eargs * pyval * list str) : bool :=
+  let '(a, b, descs) := c in
+  let ys := fst (from_args a b) in
+  list_eqb str_eqb (map (in_log_description not_of_source comp_of_source) (firstn (length descs) ys)) descs.
+"""
+
+
+def check_in_descriptions(run):
+    """the sentences recorded by check_that_in / require_that_in in a real test against OpsInDescribe.in_log_description"""
+    from props import c16 as C16
+    n = 300 if run.tier == "quick" else 8000
+    cases = []
+    while len(cases) < n:
+        c = C16.gen_in_case(run.rng)
+        if c["op"] != "assert_that_in":
+            cases.append(c)
+    obs = []
+    for k in range(0, len(cases), 500):
+        obs += I.run_operations_in([(c["op"], c["actual"], c["py_args"], c["base"], c["quiet"]) for c in cases[k:k + 500]])
+    rows = []
+    for c, o in zip(cases, obs):
+        run.evaluations += 1
+        run.count("in_descriptions_cases")
+        descs = [ck[0] for ck in o["checks"]]
+        if len(descs) >= 2:
+            run.count("in_descriptions_cases_with_two_sentences_or_more")
+        if len(set(descs)) != len(descs):
+            run.count("in_descriptions_cases_with_a_repeated_sentence")
+        try:
+            base = c["base"]
+            c_base = "(VList [])" if base is None else G.c_val(list(base) if isinstance(base, (list, tuple)) else base)
+            rows.append(("(%s, %s, %s)" % (C16.c_eargs(c["args"]), c_base, lib.c_list(descs, c_str)),
+                         {"op": c["op"], "args": repr(c["args"]), "base": repr(c["base"]), "recorded": descs}))
+        except ValueError:
+            run.count("in_descriptions_not_representable")
+    if not getattr(run, "model_ok", False) or not rows:
+        return
+    relation = "OpsInDescribe.in_log_description = the sentences recorded by check_that_in / require_that_in"
+    shards = [rows[i:i + 300] for i in range(0, len(rows), 300)]
+    files = [("indesc%d" % k, IN_DESC_HEADER + "Definition cases : list (eargs * pyval * list str) := [\n%s\n].\n"
+              % ";\n".join(r[0] for r in sh) + "Eval vm_compute in (find_indexes (fun c => negb (agrees c)) cases).\n")
+             for k, sh in enumerate(shards)]
+    reported = 0
+    for k, (rc, out) in enumerate(run.coq_eval_many(files)):
+        bad = lib.parse_nat_list(out) if rc == 0 else None
+        if bad is None:
+            run.tie_broken(relation, detail="case file did not evaluate: " + out[-1500:])
+            continue
+        for idx in bad:
+            if reported < 2:
+                run.tie_broken(relation, case=shards[k][idx][1])
+                reported += 1
+
+
 def check(run):
     run.trusted += [
         "harness/tables_matchers.py: the wording tables and the recognised shapes of every build_description, of "
@@ -561,7 +619,8 @@ def check(run):
         "match_pattern, is_text, is_json, is_float are not modelled",
     ]
     run.prove(extra_targets=["theories/Base/Util.vo", "theories/Model/PyVal.vo", "theories/Model/Matcher.vo",
-                             "theories/gen/TablesMatchers.vo", "theories/Model/Describe.vo"])
+                             "theories/gen/TablesMatchers.vo", "theories/Model/Describe.vo", "theories/Model/OpsIn.vo",
+                             "theories/Model/OpsInDescribe.vo"])
     quick = run.tier == "quick"
     n_corr = 900 if quick else 60000
     n_frag = 1500 if quick else 150000
@@ -762,6 +821,7 @@ def check(run):
                 else:
                     h, e, s = lcases[(k - nd) * 450 + idx]
                     run.tie_broken("log_description (model) = sentence recorded by check_that", case={"expr": repr(e), "hint": h}, impl=s)
+    check_in_descriptions(run)
     run.coverage["rule"] = (
         "correspondence: seeded random expressions over all modelled constructors incl. wrappers (depth 0..4) x random transformer "
         "settings, description string and transformer state afterwards compared with Model.Describe inside Coq; sentences "
